@@ -258,6 +258,13 @@ impl Ctx {
             }
         }
         drop(w);
+        if std::env::var_os("SIM_EDGE_DEBUG").is_some() {
+            self.log(format!(
+                "t={} T{} return {} {} ref={} {} steps={} edges={}",
+                t, me, tag, got_s, exp_s, verdict, got_steps, hook::call_edges()
+            ));
+            return;
+        }
         self.log(format!(
             "t={} T{} return {} {} ref={} {} steps={}",
             t, me, tag, got_s, exp_s, verdict, got_steps
@@ -819,10 +826,19 @@ impl CallerPool {
         for i in 0..n {
             let (tx, rx) = std::sync::mpsc::channel::<PoolJob>();
             let done = done_tx.clone();
+            // threads are started one at a time and each makes its first allocation before
+            // the next one is spawned: glibc creates a thread's malloc arena at its first
+            // malloc, and a race between starting threads would make heap addresses (hence
+            // the probe sequences of address-keyed hash maps in the library) differ between
+            // two executions of the same batch
+            let (ready_tx, ready_rx) = std::sync::mpsc::channel::<()>();
             std::thread::Builder::new()
                 .stack_size(THREAD_STACK)
                 .name(format!("caller-{}", i))
                 .spawn(move || {
+                    let warm = std::hint::black_box(Box::new([0u8; 64]));
+                    drop(warm);
+                    let _ = ready_tx.send(());
                     while let Ok(job) = rx.recv() {
                         job();
                         if done.send(i).is_err() {
@@ -831,6 +847,7 @@ impl CallerPool {
                     }
                 })
                 .expect("spawn caller thread");
+            let _ = ready_rx.recv();
             txs.push(tx);
         }
         CallerPool { txs, done_rx }
@@ -857,6 +874,7 @@ pub fn run(
 ) -> RunOutput {
     let spec = Arc::new(spec);
     hashkeys::reseed(spec.hash_stream);
+    hook::new_run_epoch();
     CLOCK.store(0, Ordering::Relaxed);
     let (shared, threads) = sched::new_shared(&spec, keep_log);
     let (req0, miss0) = {
@@ -916,7 +934,14 @@ pub fn run(
             (sim.clone(), spec.clone(), world.clone(), refc.clone());
         let shared2 = shared.clone();
         let world2 = world.clone();
+        let (ready_tx, ready_rx) = std::sync::mpsc::channel::<()>();
         let body = move || {
+            {
+                // first allocation of this OS thread (see CallerPool::new)
+                let warm = std::hint::black_box(Box::new([0u8; 64]));
+                drop(warm);
+                let _ = ready_tx.send(());
+            }
             let r = std::panic::catch_unwind(std::panic::AssertUnwindSafe(|| {
                 thread_main(Ctx {
                     sim: sim_c,
@@ -951,6 +976,8 @@ pub fn run(
                 .name(format!("sim-T{}", sim.idx))
                 .spawn(body)
                 .expect("spawn simulated thread");
+            // one at a time: deterministic creation order of stacks and malloc arenas
+            let _ = ready_rx.recv();
             handles.push(Some(h));
         }
     }
